@@ -54,7 +54,7 @@ LineVerdict(e) ==
         f4 == IF Has(e, "str_same") /\ ~e.str_same THEN ";string-changed" ELSE ""
         f5 == IF Has(e, "same2") /\ ~e.same2 /\ ~MayVary(e.ast) THEN ";not-repeatable" ELSE ""
         f6 == IF Has(e, "mar") /\ e.mar # "ok" THEN ";not-json" ELSE ""
-        f7 == IF Has(e, "eb") /\ e.eb \notin {"ok", "skip"} THEN ";evalbytes-differs" ELSE ""
+        f7 == IF Has(e, "eb") /\ e.eb \notin {"ok", "skip"} /\ ~(MayVary(e.ast) /\ e.eb \in {"different-value", "different-error"}) THEN ";evalbytes-differs" ELSE ""
     IN  v \o f1 \o f2 \o f3 \o f4 \o f5 \o f6 \o f7
 
 Check == /\ verdict = "pending"
